@@ -130,6 +130,49 @@ def t_dv_or_existence():
     return g.set_start_nodes({r}), dict(sel=[c1, c2], dv=[dv_a, dv_b])
 
 
+def t_dv_or_direct():
+    """a design-variable node derived *directly* from options of two different choices (the node itself has two
+    predecessors), next to one that exists under one option only"""
+    B, N, CN, G, DV, *_ = _imp()
+    g = B()
+    r, s1, s2 = N('R'), N('S1'), N('S2')
+    b1, f1, b2, f2 = N('B1'), N('F1'), N('B2'), N('F2')
+    cap = DV('CAP', bounds=(-4., 0.))
+    own = DV('OWN', options=['S', 'M', 'L'])
+    g.add_edges([(r, s1), (r, s2), (b1, cap), (b2, cap), (f2, own)])
+    c1 = g.add_selection_choice('C1', s1, [b1, f1])
+    c2 = g.add_selection_choice('C2', s2, [b2, f2])
+    return g.set_start_nodes({r}), dict(sel=[c1, c2], dv=[cap, own])
+
+
+def t_dv_same_name():
+    """design-variable nodes of different elements that carry the same name and the same domain (also: the name of an
+    indexed node coincides with the plain name of another)"""
+    B, N, CN, G, DV, *_ = _imp()
+    g = B()
+    r, p, q = N('R'), N('P'), N('Q')
+    a = [N('A0'), N('A1')]
+    l1, l2 = DV('L', bounds=(0., 1.)), DV('L', bounds=(0., 1.))
+    n1, n2 = DV('n', options=[0, 1, 2], idx=1), DV('n_1', options=[0, 1, 2])
+    c1 = g.add_selection_choice('C1', r, a)
+    g.add_edges([(r, p), (r, q), (p, l1), (q, l2), (p, n1), (a[1], n2)])
+    return g.set_start_nodes({r}), dict(sel=[c1], dv=[l1, l2, n1, n2])
+
+
+def t_dv_linked3_cond():
+    """three linked discrete design-variable nodes, the last one under one option of a choice only"""
+    B, N, CN, G, DV, M, CCT = _imp()
+    g = B()
+    r = N('R')
+    a = [N('A0'), N('A1')]
+    d1, d2, d3 = DV('D1', options=[1, 2, 3]), DV('D2', options=[4, 5, 6]), DV('D3', options=[7, 8])
+    c1 = g.add_selection_choice('C1', r, a)
+    g.add_edges([(r, d1), (r, d2), (a[0], d3)])
+    g = g.set_start_nodes({r})
+    g = g.constrain_choices(CCT.LINKED, [d1, d2, d3])
+    return g, dict(sel=[c1], dv=[d1, d2, d3], linked=[[d1, d2, d3]])
+
+
 def t_dv_linked():
     B, N, CN, G, DV, M, CCT = _imp()
     g = B()
@@ -141,7 +184,7 @@ def t_dv_linked():
     g.add_edges([(r, d1), (a[0], d2)])
     g = g.set_start_nodes({r})
     g = g.constrain_choices(CCT.LINKED, [d1, d2])
-    return g, dict(sel=[c1], dv=[d1, d2])
+    return g, dict(sel=[c1], dv=[d1, d2], linked=[[d1, d2]])
 
 
 def t_sel_linked():
@@ -495,7 +538,7 @@ def t_conn_dv():
 
 TEMPLATES = {
     'two_indep': t_two_indep, 'nested': t_nested, 'nested3': t_nested3, 'incompat': t_incompat, 'incompat3': t_incompat3, 'forced': t_forced,
-    'dv': t_dv, 'dv_single': t_dv_single, 'dv_or_existence': t_dv_or_existence, 'dv_linked': t_dv_linked, 'sel_linked': t_sel_linked, 'sel_forced_linked': t_sel_forced_linked,
+    'dv': t_dv, 'dv_single': t_dv_single, 'dv_or_existence': t_dv_or_existence, 'dv_linked': t_dv_linked, 'dv_or_direct': t_dv_or_direct, 'dv_same_name': t_dv_same_name, 'dv_linked3_cond': t_dv_linked3_cond, 'sel_linked': t_sel_linked, 'sel_forced_linked': t_sel_forced_linked,
     'conn_simple': t_conn_simple, 'conn_cond': t_conn_cond, 'conn_opt_src': t_conn_opt_src,
     'conn_infeasible_scenario': t_conn_infeasible_scenario, 'conn_group': t_conn_group,
     'conn_group_finite': t_conn_group_finite, 'conn_group_open': t_conn_group_open, 'conn_group_open2': t_conn_group_open2, 'conn_excl': t_conn_excl, 'conn_two': t_conn_two, 'conn_dv': t_conn_dv,
